@@ -9,6 +9,7 @@ import TemprenModel.Model.Text
 import TemprenModel.Model.PyRepr
 import Std.Data.HashSet
 import TemprenModel.Model.Bind
+import TemprenModel.Model.Template
 open Tempren Tempren.Proto
 
 def hexNibble (c : Char) : Option Nat :=
@@ -130,6 +131,33 @@ def encCtx : ContextResult → String
   | .ok => "ok"
   | .missing => "ctxMissing"
   | .forbidden => "ctxForbidden"
+
+def encArgVal : ArgVal → String
+  | .int i => "i" ++ toString i
+  | .bool b => if b then "bT" else "bF"
+  | .str s => encStr s
+
+def insertKw (kv : List Char × ArgVal) : List (List Char × ArgVal) → List (List Char × ArgVal)
+  | [] => [kv]
+  | x :: t => if strLe kv.1 x.1 then kv :: x :: t else x :: insertKw kv t
+
+def sortKws (l : List (List Char × ArgVal)) : List (List Char × ArgVal) := l.foldr insertKw []
+
+mutual
+  partial def encElem : Elem → String
+    | .raw s => "R(" ++ encStr s ++ ")"
+    | .tag cat name args kwargs ctx =>
+      "T(" ++ encOptStr cat ++ "," ++ encStr name ++ ",(" ++ ",".intercalate (args.map encArgVal) ++ "),(" ++
+        ",".intercalate ((sortKws kwargs).map (fun kv => encStr kv.1 ++ "=" ++ encArgVal kv.2)) ++ ")," ++
+        (match ctx with | none => "-" | some p => encPat p) ++ ")"
+  partial def encPat (p : Pat) : String := "[" ++ String.join (p.toList.map encElem) ++ "]"
+end
+
+def encTok : Tok → String
+  | .tagStart => "%" | .pipe => "|" | .text s => "TEXT:" ++ encStr s | .ctxStart => "{" | .ctxEnd => "}"
+  | .argsStart => "(" | .dot => "." | .tagId s => "ID:" ++ encStr s | .argsEnd => ")" | .sep => "," | .eq => "="
+  | .num s => "NUM:" ++ encStr s | .bool s => "BOOL:" ++ encStr s | .str q b => "STR:" ++ encStr (q :: b ++ [q])
+  | .argName s => "ARG:" ++ encStr s
 
 def encCountVal : Option CountVal → String
   | none => "E"
@@ -293,6 +321,20 @@ def handle (line : String) : String :=
       encBind (bindCall sig nargs kws) ++ " " ++ encCtx (contextRule sig ctx) ++ " " ++
         encBool (accepted sig nargs kws ctx) ++ " " ++ encStr (contextMarker sig)
     | _, _, _, _ => "bad-op"
+  | ["parse", t] =>
+    match decStr t with
+    | some t =>
+      match parseTemplate t with
+      | some p => encPat p
+      | none => "rej"
+    | none => "bad-op"
+  | ["lex", t] =>
+    match decStr t with
+    | some t =>
+      match lex t with
+      | some ts => encList (ts.map encTok)
+      | none => "lexerr"
+    | none => "bad-op"
   | _ => "bad-op"
 
 partial def loop (h : IO.FS.Stream) (out : IO.FS.Stream) : IO Unit := do
